@@ -1,5 +1,6 @@
 import Sourcer.Wire
 import Sourcer.EnvWire
+import Sourcer.Proofs.OpShape
 /-
   Line protocol driver: one request per line on stdin, one reply per line on stdout.
 
@@ -144,6 +145,10 @@ def handle (st : St) (line : String) : St × String :=
     match r with
     | some out => (st, out)
     | none => (st, "error bad-machine-request")
+  | some (.list (.atom "tagcheck" :: xs)) =>
+    match xs.mapM decodeExpr with
+    | some es => (st, " ".intercalate (es.map fun e => if allTablesTagged e then "1" else "0"))
+    | none => (st, "error bad-tagcheck-request")
   | some (.list (.atom "envfv" :: xs)) =>
     match Sourcer.X.handleEnvFv xs with
     | some out => (st, out)
